@@ -12,6 +12,7 @@ import Driver.Invoke
 import Driver.ModStoreDrv
 import Driver.Builtins
 import Driver.Enc
+import Driver.EvalDrv
 open Driver
 
 /-- a trailing field starting with '#' carries human-readable context and is ignored -/
@@ -40,6 +41,7 @@ def dispatch (line : String) : String :=
   | "bi" :: args => handleBuiltins args
   | "enc" :: args => EncDrv.handleEnc args
   | "dec" :: args => EncDrv.handleDec args
+  | "eval" :: args => handleEval args
   | _ => "bad-op"
 
 partial def loop (h : IO.FS.Stream) (out : IO.FS.Stream) : IO Unit := do
